@@ -102,7 +102,7 @@ func ZZ_C05_Frame() {
 	default:
 		o := zzvf.String(ov - 1)
 		opts = append(opts, wnet.WithLicense(o))
-		_ = o
+		eff = o
 	}
 	if zzvf.Choose(2) == 0 { // unrelated options do not disturb the frame
 		opts = append(opts, wnet.WithPriority(true), wnet.WithSecureFlag(zzvf.Byte()))
